@@ -350,6 +350,58 @@ def op_encode(ctx, dendropy, pending, tree=None, flags=None):
     pending.append(("encode %s %d %d %s" % (case["rooted"], sup, col, " ".join(toks)), case, got))
 
 
+
+def op_reencode(ctx, dendropy, pending):
+    """encode, edit the tree through the public API, encode again: the second encoding must describe the edited tree
+    (a stale or partially refreshed encoding is the classic slip)"""
+    rng = ctx.rng
+    tree = gen_tree(dendropy, rng, ctx.pick(10, 25), hole_rate=0.2)
+    if tu.leafset_masks(tree)[id(tree.seed_node)] == 0:
+        return
+    tree.encode_bipartitions()
+    _ = tree.split_bitmask_edge_map
+    nodes = tu.walk(tree.seed_node)
+    leaves = [nd for nd in nodes if not nd._child_nodes]
+    edits = []
+    for _k in range(rng.randint(1, 3)):
+        r = rng.random()
+        nodes = tu.walk(tree.seed_node)
+        leaves = [nd for nd in nodes if not nd._child_nodes]
+        if r < 0.35 and len(leaves) >= 2:
+            a, b = rng.sample(leaves, 2)
+            a.taxon, b.taxon = b.taxon, a.taxon
+            edits.append("swap")
+        elif r < 0.6 and len(leaves) >= 3:
+            lf = rng.choice(leaves)
+            if lf._parent_node is not None and len(lf._parent_node._child_nodes) > 1:
+                lf._parent_node.remove_child(lf)
+                edits.append("remove")
+        elif r < 0.85 and len(leaves) >= 3:
+            lf = rng.choice(leaves)
+            p = lf._parent_node
+            targets = [nd for nd in nodes if nd._child_nodes and nd is not p]
+            if p is not None and len(p._child_nodes) > 2 and targets:
+                p.remove_child(lf)
+                rng.choice(targets).add_child(lf)
+                edits.append("regraft")
+        else:
+            unused = [t for t in tree.taxon_namespace if t not in {nd.taxon for nd in leaves}]
+            internal = [nd for nd in nodes if nd._child_nodes]
+            if unused and internal:
+                rng.choice(internal).new_child(taxon=unused[0])
+                edits.append("newchild")
+    toks, ids = tu.encode_tree(tree, with_labels=False)
+    case = {"op": "encode", "tree": toks, "rooted": ROOT[tree.is_rooted], "sup": True, "col": True,
+            "ns": namespace_desc(tree.taxon_namespace), "after_edits": edits}
+    if tu.leafset_masks(tree)[id(tree.seed_node)] == 0:
+        return
+    pairs = run_encode(tree, True, True)
+    check_encoding_exact(ctx, tree, case)
+    ctx.case(["reencode", toks, case["rooted"], edits], nontrivial_tree(tree), sample=case, kind="reencode")
+    got = " ".join("%d:%d" % p for p in pairs) + " | " + tu.render_tree(tree, ids)
+    pending.append(("encode %s 1 1 %s" % (case["rooted"], " ".join(toks)), case, got))
+
+
 def namespace_desc(tns):
     return {"bits": [tns.accession_index(t) for t in tns], "count": tns._current_accession_count}
 
@@ -547,7 +599,7 @@ def flush(ctx, pending):
     del pending[:]
 
 
-OPS = [("pyint", 0.15), ("pred", 0.15), ("encode", 0.3), ("pair", 0.12), ("rebuild", 0.1), ("build", 0.08), ("treepreds", 0.1)]
+OPS = [("pyint", 0.13), ("pred", 0.14), ("encode", 0.27), ("pair", 0.12), ("rebuild", 0.1), ("build", 0.08), ("treepreds", 0.1), ("reencode", 0.06)]
 
 
 def run_op(ctx, dendropy, op, pending):
@@ -563,6 +615,8 @@ def run_op(ctx, dendropy, op, pending):
         op_rebuild(ctx, dendropy, pending)
     elif op == "build":
         op_build_arbitrary(ctx, dendropy, pending)
+    elif op == "reencode":
+        op_reencode(ctx, dendropy, pending)
     else:
         op_tree_preds(ctx, dendropy, pending)
 
